@@ -1,5 +1,586 @@
-use crate::msg_gen::Tier; use crate::rng::Rng; use crate::report::RunReport; use serde_json::Value;
-pub fn gen_c11(_rng: &mut Rng, _tier: Tier) -> Result<Value, serde_json::Error> { Ok(Value::Null) }
-pub fn gen_c15(_rng: &mut Rng, _tier: Tier) -> Result<Value, serde_json::Error> { Ok(Value::Null) }
-pub fn execute_c11(_s: &Value) -> RunReport { RunReport::default() }
-pub fn execute_c15(_s: &Value) -> RunReport { RunReport::default() }
+//! Histories (DESIGN §5): C11 — long-lived issuer / holder instances compared call by call with
+//! fresh instances under rewound entropy and frozen clock; C15 — multi-hop relay of
+//! presentations compared with the direct selection.
+
+use crate::gen::{self, GenCfg, Strat};
+use crate::keys;
+use crate::model;
+use crate::msg_gen::{self, clock_base, rand_fmt, Tier};
+use crate::report::{RunReport, Violation};
+use crate::rng::{hash_str, mix, Rng};
+use crate::seams;
+use crate::wire::{Fmt, Message};
+use crate::world::{self, Out, Resolver, World};
+use sd_jwt_rs::{SDJWTHolder, SDJWTIssuer};
+use serde::{Deserialize, Serialize};
+use serde_json::{json, Map, Value};
+use std::collections::{BTreeMap, BTreeSet};
+use std::sync::{Arc, Mutex};
+
+#[derive(Clone, Debug, Serialize, Deserialize, PartialEq)]
+pub struct IssueCall {
+    pub claims: Value,
+    pub strat: Strat,
+    #[serde(default)]
+    pub holder_key: Option<String>,
+    pub decoys: bool,
+    pub fmt: Fmt,
+}
+
+#[derive(Clone, Debug, Serialize, Deserialize, PartialEq)]
+pub struct PresentCall {
+    pub selection: Map<String, Value>,
+    #[serde(default)]
+    pub nonce: Option<String>,
+    #[serde(default)]
+    pub aud: Option<String>,
+    #[serde(default)]
+    pub key: Option<String>,
+    #[serde(default)]
+    pub alg: Option<String>,
+}
+
+#[derive(Clone, Debug, Serialize, Deserialize, PartialEq)]
+pub struct HistIssuerScn {
+    pub kind: String,
+    pub check: String,
+    pub entropy_seed: u64,
+    pub clock_base: i64,
+    pub key: String,
+    #[serde(default)]
+    pub alg: Option<String>,
+    pub calls: Vec<IssueCall>,
+}
+
+#[derive(Clone, Debug, Serialize, Deserialize, PartialEq)]
+pub struct HistHolderScn {
+    pub kind: String,
+    pub check: String,
+    pub entropy_seed: u64,
+    pub clock_base: i64,
+    pub key: String,
+    #[serde(default)]
+    pub alg: Option<String>,
+    pub cred: IssueCall,
+    pub calls: Vec<PresentCall>,
+}
+
+fn failing_issue_call(rng: &mut Rng, now: i64) -> IssueCall {
+    let ok_claims = json!({"iss": "https://issuer-a.example", "exp": now + 7200, "a": 1, "b": {"c": [1, 2]}});
+    match rng.usize(4) {
+        0 => IssueCall { claims: rng.pick(&[json!([1, 2]), json!("str"), json!(null), json!(5)]).clone(), strat: Strat::All, holder_key: None, decoys: rng.bool(), fmt: rand_fmt(rng) },
+        1 => IssueCall { claims: ok_claims, strat: Strat::Custom(vec![rng.pick(&["a", "b.c", "", "$a", " $.a"]).to_string()]), holder_key: None, decoys: rng.bool(), fmt: rand_fmt(rng) },
+        2 => IssueCall { claims: json!({"iss": "https://issuer-a.example", "exp": now + 7200, "x": {"_sd": ["abc"]}}), strat: Strat::Top, holder_key: Some("ecC".into()), decoys: rng.bool(), fmt: rand_fmt(rng) },
+        _ => IssueCall { claims: json!({"iss": "https://issuer-a.example", "exp": now + 7200, "arr": [{"_sd": 1}]}), strat: Strat::All, holder_key: None, decoys: true, fmt: rand_fmt(rng) },
+    }
+}
+
+pub fn gen_c11(rng: &mut Rng, tier: Tier) -> Result<Value, serde_json::Error> {
+    let now = clock_base(rng);
+    let key = rng.pick(&["ecA", "edA", "hsA"]).to_string();
+    let alg = match &key[..2] {
+        "ec" => {
+            if rng.bool() {
+                None
+            } else {
+                Some("ES256".to_string())
+            }
+        }
+        _ => Some(keys::alg_of(&key).to_string()),
+    };
+    let max_len = match tier {
+        Tier::Quick => 6,
+        Tier::Thorough => 8,
+    };
+    let n = 1 + rng.usize(max_len);
+    let cfg = GenCfg { hazard_pm: 0, ..GenCfg::small(rng) };
+    let mk_issue = |rng: &mut Rng| {
+        let claims = gen::gen_claims(rng, &cfg, "https://issuer-a.example", now);
+        let strat = gen::gen_strategy(rng, &claims);
+        IssueCall { claims, strat, holder_key: if rng.bool() { Some(msg_gen::holder_key(rng)) } else { None }, decoys: rng.bool(), fmt: rand_fmt(rng) }
+    };
+    if rng.bool() {
+        let mut calls = Vec::new();
+        for _ in 0..n {
+            calls.push(if rng.chance(1, 5) { failing_issue_call(rng, now) } else { mk_issue(rng) });
+        }
+        serde_json::to_value(HistIssuerScn { kind: "hist_issuer".into(), check: "C11".into(), entropy_seed: rng.next_u64(), clock_base: now, key, alg, calls })
+    } else {
+        let mut cred = mk_issue(rng);
+        if !matches!(cred.strat, Strat::All | Strat::Top) && rng.bool() {
+            cred.strat = Strat::All;
+        }
+        let hk = cred.holder_key.clone();
+        let mut calls = Vec::new();
+        for _ in 0..n {
+            let keep = 200 + rng.below(800);
+            let mut selection = gen::gen_selection(rng, &cred.claims, keep);
+            let kb = match (&hk, rng.usize(3)) {
+                (Some(k), 0) | (Some(k), 1) => Some((gen::gen_session_string(rng), gen::gen_session_string(rng), k.clone(), msg_gen::kb_alg_for(rng, k))),
+                _ => None,
+            };
+            let mut call = match kb {
+                Some((aud, nonce, k, a)) => PresentCall { selection: selection.clone(), nonce: Some(nonce), aud: Some(aud), key: Some(k), alg: a },
+                None => PresentCall { selection: selection.clone(), nonce: None, aud: None, key: None, alg: None },
+            };
+            // failing calls: inconsistent KB arguments, unknown alg, a claim that does not exist
+            // (selectors known to *panic* today are C07's and are not generated here)
+            match rng.usize(12) {
+                0 => {
+                    call.nonce = Some("n".into());
+                    call.aud = None;
+                    call.key = None;
+                }
+                1 => {
+                    call.nonce = Some("n".into());
+                    call.aud = Some("a".into());
+                    call.key = Some(hk.clone().unwrap_or_else(|| "ecC".into()));
+                    call.alg = Some(rng.pick(&["XS999", "", "none"]).to_string());
+                }
+                2 => {
+                    selection.insert("no_such_claim_zz".into(), json!(true));
+                    call.selection = selection;
+                }
+                _ => {}
+            }
+            calls.push(call);
+        }
+        serde_json::to_value(HistHolderScn { kind: "hist_holder".into(), check: "C11".into(), entropy_seed: rng.next_u64(), clock_base: now, key, alg, cred, calls })
+    }
+}
+
+fn describe<T>(o: &Out<T>) -> String {
+    o.describe()
+}
+
+struct Ctx {
+    rep: RunReport,
+    nontrivial: BTreeSet<u64>,
+    states: BTreeSet<u64>,
+    sigs: BTreeSet<String>,
+}
+
+fn finish(mut c: Ctx, mut w: World, t0: i64) -> RunReport {
+    c.rep.nontrivial = c.nontrivial.into_iter().collect();
+    c.rep.states = c.states.into_iter().collect();
+    c.rep.add("rt.threads_spawned", w.rt.spawned);
+    c.rep.add("ops", w.ops);
+    w.rt.shutdown();
+    let end = seams::deactivate();
+    c.rep.loghash = end.loghash;
+    c.rep.add("seam.entropy_requests", end.ent_requests);
+    c.rep.add("seam.clock_reads", end.clock_reads);
+    c.rep.sim_seconds = (end.clock_ns / 1_000_000_000 - t0).max(0) as u64;
+    c.rep
+}
+
+pub fn execute_c11(scn_v: &Value) -> RunReport {
+    match scn_v.get("kind").and_then(Value::as_str) {
+        Some("hist_issuer") => match serde_json::from_value::<HistIssuerScn>(scn_v.clone()) {
+            Ok(s) => exec_issuer(&s),
+            Err(e) => RunReport { harness_error: Some(format!("invalid scenario: {}", e)), ..Default::default() },
+        },
+        _ => match serde_json::from_value::<HistHolderScn>(scn_v.clone()) {
+            Ok(s) => exec_holder(&s),
+            Err(e) => RunReport { harness_error: Some(format!("invalid scenario: {}", e)), ..Default::default() },
+        },
+    }
+}
+
+fn exec_issuer(scn: &HistIssuerScn) -> RunReport {
+    let t0 = scn.clock_base.max(1_000_000_000);
+    // frozen clock: tick 0
+    seams::activate(scn.entropy_seed, t0, mix(&[scn.entropy_seed, 11]), 0);
+    let mut w = World::new(BTreeMap::new());
+    let node = w.rt.add_node();
+    let mut cx = Ctx { rep: RunReport::default(), nontrivial: BTreeSet::new(), states: BTreeSet::new(), sigs: BTreeSet::new() };
+    let reused = World::new_issuer(&scn.key, scn.alg.clone());
+    let mut earlier: Vec<(usize, Vec<String>, Vec<String>)> = Vec::new(); // (call, disclosure strings, digests incl. decoys)
+    let hist_hash = hash_str(&serde_json::to_string(&scn.calls).unwrap_or_default());
+    for (k, call) in scn.calls.iter().enumerate() {
+        // reused instance on a fresh thread, entropy at position s
+        w.rt.restart_node(node);
+        let s = seams::entropy_state();
+        let out_reused = w.issue(node, &reused, &scn.key, &call.claims, &call.strat, call.holder_key.as_deref(), call.decoys, call.fmt);
+        let after = seams::entropy_state();
+        // fresh instance, fresh thread, entropy rewound to s
+        w.rt.restart_node(node);
+        seams::set_entropy_state(s);
+        let fresh = World::new_issuer(&scn.key, scn.alg.clone());
+        let out_fresh = w.issue(node, &fresh, &scn.key, &call.claims, &call.strat, call.holder_key.as_deref(), call.decoys, call.fmt);
+        seams::set_entropy_state(after);
+        cx.rep.evaluations += 1;
+        cx.rep.count("fault.restart_node");
+        if !matches!(out_reused, Out::Ok(_)) {
+            cx.rep.count("fault.failing_call");
+        }
+        if out_reused.is_panic() || out_fresh.is_panic() {
+            cx.rep.count("skipped_panic_is_c07");
+            continue;
+        }
+        cx.rep.count("oracle.c11.issuer.compared");
+        cx.states.insert(hash_str(&format!("issuer|{}|{}|{}|{}|{:?}", k.min(3), out_reused.class(), call.decoys, call.fmt.name(), call.holder_key.is_some())));
+        let same = match (&out_reused, &out_fresh) {
+            (Out::Ok(a), Out::Ok(b)) => a == b,
+            (Out::Err { variant: a, msg: am }, Out::Err { variant: b, msg: bm }) => a == b && am == bm,
+            _ => false,
+        };
+        let mut viol: Option<(String, String, Value)> = None;
+        if !same {
+            viol = Some((
+                "kth-result-equals-fresh-instance".into(),
+                format!("c11:issuer:{}_vs_{}", out_reused.class(), out_fresh.class()),
+                json!({"call_index": k, "reused": describe(&out_reused), "fresh": describe(&out_fresh), "reused_out": out_reused.ok(), "fresh_out": out_fresh.ok()}),
+            ));
+        }
+        // nothing from an earlier call may appear in this result
+        if let Out::Ok(s) = &out_reused {
+            if let Some(m) = Message::parse(s, call.fmt) {
+                let payload_txt = world::payload_of(&m).map(|p| Value::Object(p).to_string()).unwrap_or_default();
+                for (j, ds, digs) in &earlier {
+                    let leak_d = ds.iter().find(|d| m.disclosures.contains(d));
+                    let leak_g = digs.iter().find(|g| payload_txt.contains(g.as_str()));
+                    if let Some(l) = leak_d.or(leak_g) {
+                        viol = Some(("no-earlier-state-in-later-result".into(), "c11:issuer:leak_from_earlier_call".into(), json!({"call_index": k, "earlier_call": j, "leaked": l})));
+                    }
+                }
+                if call.holder_key.is_none() && world::payload_of(&m).map(|p| p.contains_key("cnf")).unwrap_or(false) && !call.claims.get("cnf").is_some() {
+                    viol = Some(("no-earlier-state-in-later-result".into(), "c11:issuer:holder_key_kept".into(), json!({"call_index": k})));
+                }
+                let (_, proc) = world::payload_of(&m).map(|p| model::process(&p, &m.disclosures)).unwrap_or((model::Expect::DontCare(String::new()), Default::default()));
+                earlier.push((k, m.disclosures.clone(), proc.seen.clone()));
+            }
+        }
+        if k >= 1 {
+            cx.nontrivial.insert(mix(&[hist_hash, k as u64]));
+        }
+        if cx.rep.sample.is_none() && k >= 1 {
+            cx.rep.sample = Some(json!({"kind": "hist_issuer", "call_index": k, "call": call, "reused": describe(&out_reused), "fresh": describe(&out_fresh), "byte_identical": same}));
+        }
+        if let Some((clause, sig, detail)) = viol {
+            if cx.sigs.insert(sig.clone()) {
+                let mut red = scn.clone();
+                red.calls.truncate(k + 1);
+                cx.rep.violations.push(Violation { property: "C11".into(), clause, signature: sig, trigger: BTreeMap::from([("instance".to_string(), json!("issuer"))]), detail, scenario: serde_json::to_value(&red).unwrap_or(Value::Null) });
+            }
+        }
+    }
+    finish(cx, w, t0)
+}
+
+fn exec_holder(scn: &HistHolderScn) -> RunReport {
+    let t0 = scn.clock_base.max(1_000_000_000);
+    seams::activate(scn.entropy_seed, t0, mix(&[scn.entropy_seed, 12]), 0);
+    let mut w = World::new(BTreeMap::new());
+    let n_i = w.rt.add_node();
+    let node = w.rt.add_node();
+    let mut cx = Ctx { rep: RunReport::default(), nontrivial: BTreeSet::new(), states: BTreeSet::new(), sigs: BTreeSet::new() };
+    let ih = World::new_issuer(&scn.key, scn.alg.clone());
+    let c = &scn.cred;
+    let issued = w.issue(n_i, &ih, &scn.key, &c.claims, &c.strat, c.holder_key.as_deref(), c.decoys, c.fmt);
+    let Out::Ok(sdjwt) = issued else {
+        cx.rep.count("creds_not_issued");
+        return finish(cx, w, t0);
+    };
+    let reused = match w.holder_new(node, &sdjwt, c.fmt) {
+        Out::Ok(h) => h,
+        _ => {
+            cx.rep.count("holder_refused");
+            return finish(cx, w, t0);
+        }
+    };
+    let hist_hash = hash_str(&serde_json::to_string(&scn.calls).unwrap_or_default()) ^ hash_str(&c.claims.to_string());
+    let mut earlier_kb: Vec<String> = Vec::new();
+    for (k, call) in scn.calls.iter().enumerate() {
+        w.rt.restart_node(node);
+        let s = seams::entropy_state();
+        let out_reused = w.present_raw(node, &reused, &call.selection, call.nonce.clone(), call.aud.clone(), call.key.clone(), call.alg.clone());
+        let after = seams::entropy_state();
+        w.rt.restart_node(node);
+        seams::set_entropy_state(s);
+        let out_fresh = match w.holder_new(node, &sdjwt, c.fmt) {
+            Out::Ok(h) => w.present_raw(node, &h, &call.selection, call.nonce.clone(), call.aud.clone(), call.key.clone(), call.alg.clone()),
+            Out::Err { variant, msg } => Out::Err { variant, msg },
+            Out::Panic(p) => Out::Panic(p),
+        };
+        seams::set_entropy_state(after);
+        cx.rep.evaluations += 1;
+        cx.rep.count("fault.restart_node");
+        if !matches!(out_reused, Out::Ok(_)) {
+            cx.rep.count("fault.failing_call");
+        }
+        if out_reused.is_panic() || out_fresh.is_panic() {
+            cx.rep.count("skipped_panic_is_c07");
+            continue;
+        }
+        cx.rep.count("oracle.c11.holder.compared");
+        cx.states.insert(hash_str(&format!("holder|{}|{}|{}|kb={}", k.min(3), out_reused.class(), c.fmt.name(), call.key.is_some())));
+        let mut viol: Option<(String, String, Value)> = None;
+        let mut same = false;
+        match (&out_reused, &out_fresh) {
+            (Out::Ok(a), Out::Ok(b)) => {
+                let (ma, mb) = (Message::parse(a, c.fmt), Message::parse(b, c.fmt));
+                match (ma, mb) {
+                    (Some(ma), Some(mb)) => {
+                        let kb_same = match (&ma.kb, &mb.kb) {
+                            (None, None) => true,
+                            (Some(x), Some(y)) => kb_equiv(x, y, call.key.as_deref()),
+                            _ => false,
+                        };
+                        same = ma.jwt() == mb.jwt() && ma.disclosures == mb.disclosures && kb_same;
+                        if !same {
+                            viol = Some(("kth-result-equals-fresh-instance".into(), "c11:holder:different_presentation".into(), json!({"call_index": k, "reused": a, "fresh": b})));
+                        }
+                        if let Some(kb) = &ma.kb {
+                            if earlier_kb.contains(kb) {
+                                viol = Some(("no-earlier-state-in-later-result".into(), "c11:holder:kb_from_earlier_call".into(), json!({"call_index": k})));
+                            }
+                            earlier_kb.push(kb.clone());
+                        } else if call.key.is_none() {
+                            // no KB requested: none of the earlier KB-JWTs may appear anywhere
+                            if earlier_kb.iter().any(|e| a.contains(e.as_str())) {
+                                viol = Some(("no-earlier-state-in-later-result".into(), "c11:holder:kb_from_earlier_call".into(), json!({"call_index": k})));
+                            }
+                        }
+                    }
+                    _ => {
+                        viol = Some(("kth-result-equals-fresh-instance".into(), "c11:holder:unparseable_output".into(), json!({"call_index": k, "reused": a, "fresh": b})));
+                    }
+                }
+            }
+            (Out::Err { variant: a, msg: am }, Out::Err { variant: b, msg: bm }) => {
+                same = a == b && am == bm;
+                if !same {
+                    viol = Some(("kth-result-equals-fresh-instance".into(), "c11:holder:different_error".into(), json!({"call_index": k, "reused": describe(&out_reused), "fresh": describe(&out_fresh)})));
+                }
+            }
+            _ => {
+                viol = Some((
+                    "kth-result-equals-fresh-instance".into(),
+                    format!("c11:holder:{}_vs_{}:{}", out_reused.class(), out_fresh.class(), c.fmt.name()),
+                    json!({"call_index": k, "reused": describe(&out_reused), "fresh": describe(&out_fresh), "format": c.fmt.name()}),
+                ));
+            }
+        }
+        if k >= 1 {
+            cx.nontrivial.insert(mix(&[hist_hash, k as u64]));
+        }
+        if cx.rep.sample.is_none() && k >= 1 {
+            cx.rep.sample = Some(json!({"kind": "hist_holder", "format": c.fmt.name(), "call_index": k, "call": call, "reused": describe(&out_reused), "fresh": describe(&out_fresh), "equivalent": same}));
+        }
+        if let Some((clause, sig, detail)) = viol {
+            if cx.sigs.insert(sig.clone()) {
+                let mut red = scn.clone();
+                red.calls.truncate(k + 1);
+                let mut trigger = BTreeMap::new();
+                trigger.insert("instance".to_string(), json!("holder"));
+                trigger.insert("format".to_string(), json!(c.fmt.name()));
+                trigger.insert("call_index".to_string(), json!(k));
+                cx.rep.violations.push(Violation { property: "C11".into(), clause, signature: sig, trigger, detail, scenario: serde_json::to_value(&red).unwrap_or(Value::Null) });
+            }
+        }
+    }
+    finish(cx, w, t0)
+}
+
+/// KB-JWTs are compared structurally (map ordering and signature randomness differ between the
+/// reused and the fresh instance): same header, same claims, signature valid under the key.
+fn kb_equiv(a: &str, b: &str, key: Option<&str>) -> bool {
+    let pa: Vec<&str> = a.split('.').collect();
+    let pb: Vec<&str> = b.split('.').collect();
+    if pa.len() != 3 || pb.len() != 3 {
+        return false;
+    }
+    let (ha, hb) = (model::decode_jwt_part(pa[0]), model::decode_jwt_part(pb[0]));
+    let (ca, cb) = (model::decode_jwt_part(pa[1]), model::decode_jwt_part(pb[1]));
+    if ha.is_none() || ha != hb || ca.is_none() || ca != cb {
+        return false;
+    }
+    let Some(k) = key else { return false };
+    let alg = ha.as_ref().and_then(|h| h.get("alg")).and_then(Value::as_str).unwrap_or("ES256").to_string();
+    let Ok(alg) = alg.parse::<jsonwebtoken::Algorithm>() else { return false };
+    let dk = keys::dec_key(k);
+    let ok = |p: &Vec<&str>| jsonwebtoken::crypto::verify(p[2], format!("{}.{}", p[0], p[1]).as_bytes(), &dk, alg).unwrap_or(false);
+    ok(&pa) && ok(&pb)
+}
+
+// ---------------------------------------------------------------------------------------------
+// C15
+
+#[derive(Clone, Debug, Serialize, Deserialize, PartialEq)]
+pub struct RelayScn {
+    pub kind: String,
+    pub check: String,
+    pub entropy_seed: u64,
+    pub clock_base: i64,
+    pub key: String,
+    #[serde(default)]
+    pub alg: Option<String>,
+    pub cred: IssueCall,
+    /// D1 >= D2 >= ... ; hop j is presented in `fmts[j]` (the gateway transcodes between hops)
+    pub selections: Vec<Map<String, Value>>,
+    pub fmts: Vec<Fmt>,
+}
+
+pub fn gen_c15(rng: &mut Rng, _tier: Tier) -> Result<Value, serde_json::Error> {
+    let now = clock_base(rng);
+    let key = rng.pick(&["ecA", "edA", "hsA"]).to_string();
+    let alg = Some(keys::alg_of(&key).to_string());
+    let cfg = GenCfg { hazard_pm: 0, ..GenCfg::draw(rng) };
+    let claims = gen::gen_claims(rng, &cfg, "https://issuer-a.example", now);
+    let strat = match rng.usize(4) {
+        0 => gen::gen_strategy(rng, &claims),
+        1 => Strat::Top,
+        _ => Strat::All,
+    };
+    let cred = IssueCall { claims: claims.clone(), strat, holder_key: if rng.chance(1, 4) { Some(msg_gen::holder_key(rng)) } else { None }, decoys: rng.bool(), fmt: rand_fmt(rng) };
+    let k = 2 + rng.usize(3);
+    let mut selections = Vec::new();
+    let keep = 600 + rng.below(400);
+    let mut d = if rng.chance(1, 4) { gen::select_all(&claims) } else { gen::gen_selection(rng, &claims, keep) };
+    selections.push(d.clone());
+    for _ in 1..k {
+        let drop_pm = 100 + rng.below(400);
+        d = gen::narrow_selection(rng, &d, drop_pm);
+        selections.push(d.clone());
+    }
+    let mut fmts = vec![cred.fmt];
+    for _ in 1..k {
+        let last = *fmts.last().unwrap();
+        fmts.push(if rng.chance(1, 3) { last.other() } else { last });
+    }
+    serde_json::to_value(RelayScn { kind: "relay".into(), check: "C15".into(), entropy_seed: rng.next_u64(), clock_base: now, key, alg, cred, selections, fmts })
+}
+
+pub fn execute_c15(scn_v: &Value) -> RunReport {
+    let scn: RelayScn = match serde_json::from_value(scn_v.clone()) {
+        Ok(s) => s,
+        Err(e) => return RunReport { harness_error: Some(format!("invalid scenario: {}", e)), ..Default::default() },
+    };
+    let t0 = scn.clock_base.max(1_000_000_000);
+    seams::activate(scn.entropy_seed, t0, mix(&[scn.entropy_seed, 15]), 1_000_000_000);
+    let mut dir = BTreeMap::new();
+    dir.insert("https://issuer-a.example".to_string(), scn.key.clone());
+    let mut w = World::new(dir);
+    let n_i = w.rt.add_node();
+    let n_h0 = w.rt.add_node();
+    let n_hr = w.rt.add_node();
+    let n_v = w.rt.add_node();
+    let mut cx = Ctx { rep: RunReport::default(), nontrivial: BTreeSet::new(), states: BTreeSet::new(), sigs: BTreeSet::new() };
+    let ih = World::new_issuer(&scn.key, scn.alg.clone());
+    let c = &scn.cred;
+    let issued = w.issue(n_i, &ih, &scn.key, &c.claims, &c.strat, c.holder_key.as_deref(), c.decoys, c.fmt);
+    let Out::Ok(sdjwt) = issued else {
+        cx.rep.count("creds_not_issued");
+        return finish(cx, w, t0);
+    };
+    let Some(orig) = Message::parse(&sdjwt, c.fmt) else { return finish(cx, w, t0) };
+    let hist_hash = hash_str(&serde_json::to_string(&scn.selections).unwrap_or_default()) ^ hash_str(&c.claims.to_string());
+    // relay chain
+    let mut prev: Message = orig.clone();
+    let mut prev_fmt = c.fmt;
+    for (j, sel) in scn.selections.iter().enumerate() {
+        let fmt_j = scn.fmts.get(j).copied().unwrap_or(c.fmt);
+        // the gateway hands the previous hop's message over in this hop's format
+        let Some(input) = prev.serialize(fmt_j) else {
+            cx.rep.count("skipped_not_transcodable");
+            break;
+        };
+        if fmt_j != prev_fmt {
+            cx.rep.count("fault.transcode");
+        }
+        let relay = match w.holder_new(n_hr, &input, fmt_j) {
+            Out::Ok(h) => w.present(n_hr, &h, sel, None),
+            Out::Err { variant, msg } => Out::Err { variant, msg },
+            Out::Panic(p) => Out::Panic(p),
+        };
+        // direct path: fresh holder over the originally issued SD-JWT, same selection, same format
+        let direct = match orig.serialize(fmt_j) {
+            Some(o) => match w.holder_new(n_h0, &o, fmt_j) {
+                Out::Ok(h) => w.present(n_h0, &h, sel, None),
+                Out::Err { variant, msg } => Out::Err { variant, msg },
+                Out::Panic(p) => Out::Panic(p),
+            },
+            None => break,
+        };
+        cx.rep.evaluations += 1;
+        if j >= 1 {
+            cx.rep.count("fault.disclosure_loss_per_hop");
+        }
+        let (mr, md) = (relay.ok().and_then(|s| Message::parse(s, fmt_j)), direct.ok().and_then(|s| Message::parse(s, fmt_j)));
+        let mut viol: Option<(String, String, Value)> = None;
+        match (&mr, &md) {
+            (Some(r), Some(d)) => {
+                cx.rep.count("oracle.c15.compared");
+                let sr: BTreeSet<&String> = r.disclosures.iter().collect();
+                let sd: BTreeSet<&String> = d.disclosures.iter().collect();
+                if sr != sd || r.disclosures.len() != sr.len() {
+                    let class = if sr.len() > sd.len() { "relay_discloses_more" } else if sr.len() < sd.len() { "relay_discloses_less" } else { "different_set" };
+                    viol = Some(("same-disclosure-set".into(), format!("c15:{}", class), json!({"hop": j, "relay": r.disclosures, "direct": d.disclosures})));
+                } else {
+                    // both verified by the real verifier
+                    let (wr, wd) = (r.serialize(fmt_j), d.serialize(fmt_j));
+                    if let (Some(wr), Some(wd)) = (wr, wd) {
+                        let vr = w.verify(n_v, &wr, fmt_j, None, &Resolver::Directory);
+                        let vd = w.verify(n_v, &wd, fmt_j, None, &Resolver::Directory);
+                        cx.rep.count("oracle.c15.verified_pairs");
+                        let eq = match (vr.res(), vd.res()) {
+                            (Out::Ok(a), Out::Ok(b)) => a == b,
+                            (Out::Ok(_), _) | (_, Out::Ok(_)) => false,
+                            _ => true,
+                        };
+                        if vr.res().is_ok() {
+                            cx.rep.count("oracle.c15.verified_ok");
+                        }
+                        if !eq {
+                            viol = Some(("same-verified-claims".into(), "c15:different_claims".into(), json!({"hop": j, "relay": vr.res().describe(), "direct": vd.res().describe(), "relay_claims": vr.res().ok(), "direct_claims": vd.res().ok()})));
+                        }
+                    }
+                }
+            }
+            (None, None) => {
+                cx.rep.count("oracle.c15.both_refuse");
+            }
+            (None, Some(_)) => {
+                let how = if relay.is_panic() { "relay_panics" } else { "relay_refuses" };
+                viol = Some(("relay-works-where-direct-works".into(), format!("c15:{}", how), json!({"hop": j, "relay": relay.describe(), "direct": "Ok", "format": fmt_j.name()})));
+            }
+            (Some(_), None) => {
+                if !direct.is_panic() {
+                    viol = Some(("relay-works-where-direct-works".into(), "c15:direct_refuses".into(), json!({"hop": j, "direct": direct.describe()})));
+                } else {
+                    cx.rep.count("skipped_panic_is_c07");
+                }
+            }
+        }
+        cx.states.insert(hash_str(&format!("relay|{}|{}|{}|{}|{}", j, fmt_j.name(), relay.class(), direct.class(), c.decoys)));
+        if j >= 1 {
+            cx.nontrivial.insert(mix(&[hist_hash, j as u64]));
+        }
+        if cx.rep.sample.is_none() && j >= 1 {
+            cx.rep.sample = Some(json!({"kind": "relay", "hop": j, "format": fmt_j.name(), "selection": sel, "relay": relay.describe(), "direct": direct.describe(),
+                "relay_disclosures": mr.as_ref().map(|m| m.disclosures.len()), "direct_disclosures": md.as_ref().map(|m| m.disclosures.len()), "issued_disclosures": orig.disclosures.len()}));
+        }
+        if let Some((clause, sig, detail)) = viol {
+            if cx.sigs.insert(sig.clone()) {
+                let mut red = scn.clone();
+                red.selections.truncate(j + 1);
+                red.fmts.truncate(j + 1);
+                let mut trigger = BTreeMap::new();
+                trigger.insert("hop".to_string(), json!(j));
+                trigger.insert("format".to_string(), json!(fmt_j.name()));
+                cx.rep.violations.push(Violation { property: "C15".into(), clause, signature: sig, trigger, detail, scenario: serde_json::to_value(&red).unwrap_or(Value::Null) });
+            }
+            break;
+        }
+        match mr {
+            Some(r) => {
+                prev = r;
+                prev_fmt = fmt_j;
+            }
+            None => break,
+        }
+    }
+    let _ = (Arc::new(Mutex::new(0u8)), std::marker::PhantomData::<(SDJWTHolder, SDJWTIssuer)>);
+    finish(cx, w, t0)
+}
